@@ -15,6 +15,7 @@ T = [
  ("sym_proj", "{ match(M,W) } :- pm(M,W).\n:- 2 <= #sum { 1,W : match(M1,W), match(M2,W), M1 != M2 }.\nh(A,D) :- q(A,B), r(A,D), s(B,E), t(E).", {}),
  ("sym_proj2", "{ match(M,W) : cand(M,W) }.\nh(W) :- w(W), 1 <= #count { W : match(M1,W), match(M2,W), M1 != M2 }.\np(A,D) :- q(A,B,C), r(A,D), t(E), not s(B,E).", {"universe_pos": {"q/3": [["0", "1"], ["0", "1"], ["0"]]}}),
  ("sym_proj3", "{ match(M,W) : cand(M,W) }.\nh(W) :- w(W), 1 <= #count { W : match(M1,W), match(M2,W), M1 != M2 }.\ng(W) :- w(W), 1 <= #count { W : match(W,M1), match(W,M2), M1 != M2 }.\np(A,D) :- q(A,B), r(A,D), t(E), not s(B,E).", {}),
+ ("sym_math", "{ p(X,A) } :- dp(X,A).\na(X) :- p(X,A), p(X,B), A < B, q(X,Y), Z = Y+1, Z > Y.", {}),
  ("dup_proj", "p(X) :- a(X), b(X,Y), c(Y).\nq(Z) :- a(Z), b(Z,W), e(W).\nh(A,D) :- q(A), r(A,D), s(B,E), t(E).", {}),
  ("clean_unused", "b(X,Y) :- d(X), d(Y), X+Y < 3.\na(X,Y) :- b(X,Y), d(X), d(Y).\n:- a(X,_), f(X).", {}),
  ("unused_inline", "{ p(A,X,W) } :- pp(A,X,W).\nhelper(A,S) :- g(A), S = #sum { W,X : p(A,X,W) }.\ncopy(A,S) :- helper(A,S).\nfoo(T) :- T = #sum { S,A : copy(A,S) }.", {"universe_pos": {"pp/3": [["0", "1"], ["0", "1"], ["1", "2"]]}}),
